@@ -273,6 +273,19 @@ def generate_C13(rng, tier):
             runs.append((l, rng.choice([0, 1, 300, U64])))
             tot += l
         yield "rle_hostile %s %d" % (hexs(sum((tput(l) + tput(v) for (l, v) in runs), [])), cap)
+    # stitched with-header streams: the count header says k, the runs that follow hold more
+    # (or far more) than k values — "whatever count the encoded data declares"
+    # (added by main after seeded change C13-5)
+    for _ in range(60 if quick else 600):
+        k = rng.choice([1, 2, 3, 4, 7, 8, 100, 300])
+        runs, tot = [], 0
+        while tot < k + rng.choice([1, 5, 600, 3000]):
+            l = rng.choice([1, 2, 3, 5, 250, 600, 3000])
+            runs.append((l, rng.choice([0, 1, 7, 300, U64])))
+            tot += l
+        body = sum((tput(l) + tput(v) for (l, v) in runs), [])
+        for cap in sorted(set([k, k + 1, k + 8])):
+            yield "rle_hostile_hdr %s %d" % (hexs(tput(k) + body), cap)
     for tr in dict_arrays(rng, tier, 120 if quick else 700):
         n = sum(c for (c, _, _) in tr)
         if n > 5000:
@@ -476,6 +489,15 @@ def o_rle_hostile(args, c):
     return None
 
 
+def o_rle_hostile_hdr(args, c):
+    if _fault(c):
+        return _fault(c)
+    cap = int(args[1])
+    if c["guard"] != "ok" or int(c["touched"]) > cap or int(c["ret"]) > cap:
+        return "varintRLEDecodeWithHeader wrote/returned beyond capacity %d: ret=%s guard=%s" % (cap, c["ret"], c["guard"])
+    return None
+
+
 def o_dict_cap(args, c):
     if _fault(c):
         return _fault(c)
@@ -559,8 +581,8 @@ def classify(case, m):
         return "%s-w%s" % (api, m.get("dw", "?")) if api == "dict_enc" else "dict_cap"
     if api == "dict_with":
         return "dict_with-" + ("miss" if m.get("n") == "0" else "ok")
-    if api == "rle_hostile":
-        return "rle_hostile"
+    if api in ("rle_hostile", "rle_hostile_hdr"):
+        return api
     if api == "rle_rc":
         return "rle_rc-%s" % ("empty" if t[1] == "x" else "runs" if m.get("rc", "0") != "0" else "norun")
     if api == "dict_dec":
@@ -613,7 +635,8 @@ PARTS = {
                 rule="valid encodings of the C02 arrays x capacities 0..count (all capacities for short arrays; 0, 1, "
                      "run boundaries +-1, count-1, count for long ones), output array of exactly cap elements inside "
                      "canaries; hostile run streams with lengths near 2^64 for varintRLEDecode; non-trivial = count >= 1",
-                generate=generate_C13, oracles={"rle_cap": o_rle_cap, "dict_cap": o_dict_cap, "rle_hostile": o_rle_hostile},
+                generate=generate_C13, oracles={"rle_cap": o_rle_cap, "dict_cap": o_dict_cap, "rle_hostile": o_rle_hostile,
+                                                        "rle_hostile_hdr": o_rle_hostile_hdr},
                 classify=classify, search=search, assumptions=ASSUME, trusted_base=TRUST,
                 configs_quick=["pinned", "O0"]),
     "C14": dict(coq_props=["Properties_C14_rledict"], files=FILES,
